@@ -9,7 +9,7 @@ evaluation give bit-identical results by construction (selfcheck() verifies).
 import numpy as np
 
 FAMILIES = ['gauss', 'rotgauss', 'twomode', 'banana', 'halfspace', 'stairs',
-            'wrap', 'flat', 'ring', 'speckle']
+            'wrap', 'flat', 'ring', 'speckle', 'lattice']
 BLOBS = ['none', 'float', 'int', 'two', 'struct', 'multi_f32', 'array']
 PRIORS = ['fn', 'fn_inplace', 'obj', 'obj_array', 'fn_dict']
 
@@ -124,6 +124,19 @@ def _ll_speckle(cols, p):
     return best
 
 
+def _ll_lattice(cols, p):
+    # a 4 x 4 lattice of equal peaks: bounds with many ellipsoids
+    best = None
+    for b in p['peaks']:
+        acc = 0.0
+        for c, m in zip(cols, b):
+            d = (c - m) / p['psig']
+            acc = acc + d * d
+        v = acc * -0.5
+        best = v if best is None else np.maximum(best, v)
+    return best
+
+
 def _ll_flat(cols, p):
     return cols[0] * 0.0 + p['value']
 
@@ -131,7 +144,7 @@ def _ll_flat(cols, p):
 _LL = dict(gauss=_ll_gauss, rotgauss=_ll_rotgauss, twomode=_ll_twomode,
            banana=_ll_banana, halfspace=_ll_halfspace, stairs=_ll_stairs,
            wrap=_ll_wrap, flat=_ll_flat, ring=_ll_ring,
-           speckle=_ll_speckle)
+           speckle=_ll_speckle, lattice=_ll_lattice)
 
 BLOB_DTYPE_USER = {
     'none': None, 'float': None, 'int': None, 'two': None,
@@ -485,6 +498,16 @@ def draw_lik_spec(rng, n_dim, family=None, blob=None, prior=None,
         p = dict(mu=mu, sig=widths(0.03, 0.06), bumps=bumps,
                  bsig=min(w) * rng.choice([0.004, 0.008]),
                  boff=rng.choice([0.0, -1.0]))
+    elif family == 'lattice':
+        mid = [l + wi * 0.5 for l, wi in zip(lo, w)]
+        peaks = []
+        for i in range(4):
+            for j in range(4):
+                b = list(mid)
+                b[0] = lo[0] + w[0] * (0.14 + 0.24 * i)
+                b[1] = lo[1] + w[1] * (0.14 + 0.24 * j)
+                peaks.append(b)
+        p = dict(peaks=peaks, psig=min(w) * rng.choice([0.012, 0.02]))
     elif family == 'ring':
         p = dict(mu=centre(0.45, 0.55), sig=widths(0.08, 0.2),
                  rad=min(w[0], w[1]) * rng.uniform(0.25, 0.35),
